@@ -134,7 +134,7 @@ class AstGen:
             body = self.body(s2, depth + 1, budget)
             if self.chance(0.3):
                 pos = r.randint(0, len(body))
-                rt = Return(r.choice(['RETURN', 'RET']))
+                rt = Return(r.choice(['RETURN', 'RET']), self.int_expr(s2, 1) if self.chance(0.4) else None)
                 st = rt
                 for _ in range(r.choice([0, 1, 2])): st = IfChain([(self.cond(s2), [st])], None, [[]])
                 body.insert(pos, st)
@@ -150,7 +150,7 @@ class AstGen:
             nm = r.choice(sorted(sc.funcs))
             return Call(nm, [self.int_expr(sc, 1) for _ in range(sc.funcs[nm])])
         if k == 'ret':
-            return Return(r.choice(['RETURN', 'RET']))
+            return Return(r.choice(['RETURN', 'RET']), self.int_expr(sc, 1) if self.chance(0.3) else None)
         if k == 'prnt':
             if self.chance(0.5): return Print(text=f'msg {self.tag()}')
             return Print(expr=Bin('+', Lit(f'{self.tag()}:'), self.int_expr(sc)))
